@@ -75,6 +75,11 @@ namespace net
     op.name = name;
     if (name == "clause")
       gen_lits(r, op, r.chance(1, 6) ? 5 : 3, r.chance(1, 5) ? 1 : 2);
+    else if (name == "fact")
+    { // a constraint literal asserted at root (the way the planner uses the theories most of the time)
+      op.name = "clause";
+      op.a = {1, static_cast<long>(r.chance(3, 4) ? 1 : 0), 2000 + static_cast<long>(r.below(40))};
+    }
     else if (name == "eq")
     {
       for (int i = 0; i < 2; ++i)
@@ -135,6 +140,7 @@ namespace net
       op.a.push_back(n);
       for (int i = 0; i < 5; ++i)
         op.a.push_back(static_cast<long>(r.below(6)));
+      op.a.push_back(static_cast<long>(r.chance(1, 4) ? 1 : 0)); // keep values listed twice
     }
     else if (name == "ovar2")
     {
@@ -259,6 +265,8 @@ namespace net
     {
       create.add("ovar", prop == "C14" ? 25 : 8), create.add("ovar2", prop == "C14" ? 4 : 1), create.add("oeq", prop == "C14" ? 25 : 6);
     }
+    if (use_lra || use_idl || use_rdl || use_ov)
+      create.add("fact", prop == "C12" || prop == "C11" || prop == "C14" ? 8 : 4);
     search.add("assume", 50), search.add("pop", 12), search.add("popto", 6), search.add("next", 8), search.add("check", 10), search.add("prop", 2);
     if (prop == "C13" || prop == "C14")
       search.add("sweep", 25);
